@@ -42,8 +42,8 @@ import (
 const entrySetupSrc = `progress = 0; function spin(){ for (var i = 0; i < 3; i++) { progress++; } return progress; } function Spin(){ this.v = spin(); } holder = { spin: spin };`
 
 var (
-	entrySetupScript = compile(entrySetupSrc)
-	entrySpinScript  = compile(`spin()`)
+	entrySetupScript = lazy(entrySetupSrc)
+	entrySpinScript  = lazy(`spin()`)
 )
 
 type entryRoute struct {
@@ -54,7 +54,7 @@ type entryRoute struct {
 
 var entryRoutes = []entryRoute{
 	{name: "run_string", enter: func(vm *otto.Otto) (otto.Value, error) { return vm.Run(`spin()`) }},
-	{name: "run_script", enter: func(vm *otto.Otto) (otto.Value, error) { return vm.Run(entrySpinScript) }},
+	{name: "run_script", enter: func(vm *otto.Otto) (otto.Value, error) { return vm.Run(entrySpinScript.get()) }},
 	{name: "eval", enter: func(vm *otto.Otto) (otto.Value, error) { return vm.Eval(`spin()`) }},
 	{name: "call_name", enter: func(vm *otto.Otto) (otto.Value, error) { return vm.Call("spin", nil) }},
 	{name: "call_new", enter: func(vm *otto.Otto) (otto.Value, error) { return vm.Call("new Spin", nil) }},
@@ -111,7 +111,7 @@ func runEntry(route entryRoute, timing int, mode string, k int, sentinel error) 
 	if err != nil {
 		return nil, err
 	}
-	if _, err := vm.Run(entrySetupScript); err != nil {
+	if _, err := vm.Run(entrySetupScript.get()); err != nil {
 		return nil, err
 	}
 	step := -1
